@@ -159,7 +159,7 @@ func init() {
 				dkv{"env", mk()},
 				dkv{"steps", dList(
 					dMap(dkv{"command", dStr("x")}, dkv{"plugins", pm}, dkv{"unknown_field", dMap(dkv{"nested", mk()})}),
-					dMap(dkv{"mystery", mk()}, dkv{"deep", dList(mk())}),
+					dMap(dkv{"mystery", mk()}, dkv{"deep", dList(mk())}, dkv{"deeper", dList(dList(dStr("scalar"), dList(mk())), dList(mk(), dInt(1)))}),
 				)},
 				dkv{"top_extra", dMap(dkv{"inner", mk()})},
 			)
@@ -189,6 +189,8 @@ func init() {
 				{"nested-unknown-field", []any{"steps", 0, "unknown_field", "nested"}, keys},
 				{"unknown-step", []any{"steps", 1, "mystery"}, keys},
 				{"unknown-step-deep", []any{"steps", 1, "deep", 0}, keys},
+				{"list-in-list-in-list", []any{"steps", 1, "deeper", 0, 1, 0}, keys},
+				{"list-in-list", []any{"steps", 1, "deeper", 1, 0}, keys},
 				{"top-level-extra", []any{"top_extra", "inner"}, keys},
 			}
 			bad := false
